@@ -3,6 +3,7 @@ package main
 import (
 	"bytes"
 	"fmt"
+	"strings"
 
 	"github.com/ClickHouse/ch-go/proto"
 )
@@ -222,14 +223,26 @@ func c18EnumRedefined(c *Ctx, r *Rng) {
 		{"Enum8('a' = 1, 'b' = 2)", "Enum8('b' = 1, 'a' = 2, 'c' = 3)", "Enum8('a' = 1, 'b' = 2)"},
 		{"Enum16('x' = -300, 'y' = 300)", "Enum16('y' = -300, 'x' = 300)", "Enum16('x' = 1, 'y' = 2, 'z' = 1000)"},
 	}
+	// parameter-only changes of other parametrised types (same wire width): precision and time zone
+	defs = append(defs,
+		[]string{"DateTime64(3)", "DateTime64(6)", "DateTime64(0)"},
+		[]string{"DateTime64(9, 'UTC')", "DateTime64(3, 'UTC')", "DateTime64(9, 'UTC')"},
+	)
 	for _, seq := range defs {
-		for _, wrap := range []string{"%s", "Array(%s)", "Nullable(%s)"} {
+		for _, wrap := range []string{"%s", "Array(%s)", "Nullable(%s)", "auto:%s", "auto:Array(%s)", "auto:Nullable(%s)", "auto:LowCardinality(%s)"} {
+			// "auto:" = one explicit ColAuto target kept across the blocks (it infers at the first block and is reused afterwards)
+			explicitAuto := strings.HasPrefix(wrap, "auto:")
+			wrap = strings.TrimPrefix(wrap, "auto:")
 			t0, err := parseCH(fmt.Sprintf(wrap, seq[0]))
 			if err != nil {
 				continue
 			}
-			target, err := newColumn(t0)
-			if err != nil {
+			var target proto.Column
+			var auto *proto.ColAuto
+			if explicitAuto {
+				auto = new(proto.ColAuto)
+				target = auto
+			} else if target, err = newColumn(t0); err != nil {
 				continue
 			}
 			res := proto.Results{{Name: "e", Data: target}}
@@ -265,7 +278,12 @@ func c18EnumRedefined(c *Ctx, r *Rng) {
 					R.Count("compatible-but-rejected")
 					break
 				}
-				if e, sz := checkColumn(target, cols[0].cn); e != nil && !sz {
+				held := target
+				if auto != nil {
+					held = auto.Data
+					cs["target"] = "ColAuto (explicit, reused)"
+				}
+				if e, sz := checkColumn(held, cols[0].cn); e != nil && !sz {
 					R.Violate(Violation{Kind: "oracle", Key: "bind-wrong-data", What: fmt.Sprintf("block %d (%s) bound to the target of %s: the target does not hold the block's rows: %v", bi, t.CH, t0.CH, e), Case: cs})
 					return
 				}
